@@ -2095,7 +2095,8 @@ func (d *decoderMsgpackBytes) kArray(f *decFnInfo, rv reflect.Value) {
 	rvlen := rv.Len()
 	hasLen := containerLenS >= 0
 	if hasLen && containerLenS > rvlen {
-		halt.errorf("cannot decode into array with length: %v, less than container length: %v", any(rvlen), any(containerLenS))
+
+		d.arrayCannotExpand(rvlen, containerLenS)
 	}
 
 	var elemReset = d.h.SliceElementReset
@@ -6146,7 +6147,8 @@ func (d *decoderMsgpackIO) kArray(f *decFnInfo, rv reflect.Value) {
 	rvlen := rv.Len()
 	hasLen := containerLenS >= 0
 	if hasLen && containerLenS > rvlen {
-		halt.errorf("cannot decode into array with length: %v, less than container length: %v", any(rvlen), any(containerLenS))
+
+		d.arrayCannotExpand(rvlen, containerLenS)
 	}
 
 	var elemReset = d.h.SliceElementReset
